@@ -529,7 +529,7 @@ func init() {
 		Exec:      c07Exec,
 		Judge:     c07Judge,
 		Describe:  c07Describe,
-		QuickN:    4000,
+		QuickN:    4000*2,
 		ThoroughN: 200000,
 	})
 }
